@@ -51,6 +51,11 @@ pub mod verif {
 /// Verification hooks: the libp2p TLS certificate parser (QUIC) on raw DER bytes. Adds code only.
 #[cfg(all(feature = "verif", feature = "quic"))]
 pub mod verif_tls {
+    pub use super::tls::certificate::{verif_generate_with_identity, verif_parse_peer_id};
+    pub use super::tls::{
+        certificate::VERIF_P2P_SIGNING_PREFIX,
+        verif::{verif_check_client_cert, verif_check_server_cert, verif_generate_with},
+    };
     use crate::PeerId;
 
     /// `tls::certificate::parse` (parse + verify) on DER bytes; the peer id on success.
@@ -82,10 +87,10 @@ pub mod verif_noise_identity {
     }
 }
 
-/// Verification hooks for the TLS certificate path used by QUIC (re-exports only).
-#[cfg(all(feature = "verif", feature = "quic"))]
-pub mod verif_tls {
-    pub use super::tls::certificate::{verif_generate_with_identity, verif_parse_peer_id};
+/// Verification hooks: the Noise context that the WebRTC transport drives on byte vectors.
+#[cfg(all(feature = "verif", feature = "webrtc"))]
+pub mod verif_webrtc_noise {
+    pub use super::noise::NoiseContext;
 }
 
 /// The public key of a node's identity keypair.
